@@ -497,40 +497,131 @@ def replay_fun(log_ops, seed_state):
     return out
 
 
+def cosine_sum(times, freqs, amps, phases, rms):
+    """the published definition of FullThermalNoise: rms * sqrt(2/N) * sum_k amp_k cos(2 pi f_k t + phase_k),
+    over the basis the object currently publishes (N = its number of frequencies)"""
+    t = np.asarray(times, dtype=float)
+    tot = np.zeros(len(t))
+    for f, a, ph in zip(freqs, amps, phases):
+        tot += a * np.cos(2 * np.pi * f * t + ph)
+    return tot * np.sqrt(2 / len(freqs)) * rms
+
+
+def fresh_noise(cls, sig, times0):
+    """a newly CONSTRUCTED noise signal with the same public defining attributes (band, rms, basis)"""
+    new = cls(np.array(times0), (sig.f_min, sig.f_max), rms_voltage=sig.rms)
+    if cls.__name__ == "FullThermalNoise":
+        new.freqs = np.array(sig.freqs)
+    new.amps = np.array(sig.amps)
+    new.phases = np.array(sig.phases)
+    if not np.array_equal(new.times, sig.times):
+        new.times = np.array(sig.times)
+    return new
+
+
 def noise_cases(ctx, rng):
-    """thermal-noise subclasses: public parameter assignments must invalidate cached values"""
+    """thermal-noise subclasses: public parameter assignments between reads, INCLUDING ones that change the
+    number of frequencies (new basis arrays of a different length; for the FFT variant a new band with matching
+    amplitude / phase arrays); afterwards values vs a freshly constructed object with the same public
+    attributes and (FullThermalNoise) vs the explicit cosine sum over the published basis"""
     from pyrex.signals import FullThermalNoise, FFTThermalNoise
+    import scipy.fft
     n_cases = 0
-    for cls, attrs in ((FullThermalNoise, ["rms", "amps", "phases", "freqs"]), (FFTThermalNoise, ["rms", "amps", "phases"])):
-        for trial in range(ctx.n(3, 20)):
+    for cls in (FullThermalNoise, FFTThermalNoise):
+        full = cls is FullThermalNoise
+        for trial in range(ctx.n(6, 40)):
             np.random.seed(rng.randrange(2 ** 31))
-            times = np.arange(16) * 0.125
-            sig = cls(times, (1.0, 3.5), rms_voltage=1.0)
+            n = rng.choice([16, 24, 32])
+            dt = 0.125
+            times0 = np.arange(n) * dt
+            sig = cls(times0, (rng.choice([0.5, 1.0]), rng.choice([2.5, 3.5])), rms_voltage=1.0)
             hist = []
             for stepn in range(rng.randint(2, 6)):
-                _ = sig.values
-                a = rng.choice(attrs)
-                old = getattr(sig, a)
-                new = old * 2 if a != "phases" else old + 0.5
-                if a == "freqs":
-                    new = old + 0.25
-                setattr(sig, a, new)
-                hist.append(a)
-                got = np.array(sig.values)
-                # fresh object with the same defining attributes: same class instance state, empty cache
-                twin = copy.copy(sig)
-                twin.__dict__ = {k: v for k, v in sig.__dict__.items() if not k.startswith("_lazy_")}
-                twin._functions = [f for f in sig._functions]
-                # the closure refers to `sig` itself, so the fresh evaluation is sig's function on sig's grid
-                fresh = np.array(sig._functions[0](np.asarray(sig.times) - sig._t0s[0])) * sig._factors[0]
+                _ = sig.values                                   # fill the cache
+                kind = rng.choice(["rms", "amps", "phases", "basis", "basis", "shift", "scale"] + (["freqs"] if full else ["band", "band"]))
+                if kind == "rms":
+                    sig.rms = sig.rms * rng.choice([2, 0.5, 3])
+                elif kind == "amps":
+                    sig.amps = np.array(sig.amps) * rng.choice([2, 0.5])
+                elif kind == "phases":
+                    sig.phases = np.array(sig.phases) + 0.5
+                elif kind == "freqs":
+                    sig.freqs = np.array(sig.freqs) + 0.25
+                elif kind == "shift":
+                    sig.shift(rng.randint(-4, 4) * dt)
+                elif kind == "scale":
+                    sig *= rng.choice([2.0, -0.5])
+                elif kind == "basis" and full:
+                    # a basis with a DIFFERENT number of frequencies
+                    m = max(1, len(sig.freqs) + rng.choice([-3, -1, 2, 5]))
+                    sig.freqs = np.linspace(sig.f_min, sig.f_max, m, endpoint=False)
+                    sig.amps = np.random.rayleigh(1 / np.sqrt(2), size=m)
+                    sig.phases = np.random.rand(m) * 2 * np.pi
+                elif kind in ("band", "basis"):
+                    # FFT variant: the basis is the set of FFT bins inside [f_min, f_max]: move the band, then
+                    # publish amplitude / phase arrays of the matching (different) length
+                    sig.f_min = rng.choice([0.25, 0.5, 1.0, 1.5])
+                    sig.f_max = rng.choice([2.0, 2.5, 3.0, 3.75])
+                    allf = scipy.fft.rfftfreq(n, dt)
+                    m = int(np.count_nonzero((allf >= sig.f_min) & (allf <= sig.f_max)))
+                    sig.amps = np.random.rayleigh(1 / np.sqrt(2), size=m)
+                    sig.phases = np.random.rand(m) * 2 * np.pi
+                hist.append(kind)
                 n_cases += 1
                 ctx.case(key=("noise", cls.__name__, tuple(hist)), sample={"class": cls.__name__, "assigned": list(hist)} if n_cases % 40 == 1 else None)
-                if not np.allclose(got, fresh, rtol=0, atol=1e-12 * max(1.0, float(np.max(np.abs(fresh))))):
-                    ctx.fail("noise:%s:%s" % (cls.__name__, a),
-                             "%s: values read after assigning .%s are the ones cached before the assignment" % (cls.__name__, a),
+                try:
+                    got = np.array(sig.values, dtype=float)
+                except Exception as e:
+                    ctx.fail("noise-raise:%s:%s" % (cls.__name__, kind), "%s: values raised %s after %s" % (cls.__name__, type(e).__name__, hist),
+                             {"kind": "noise", "class": cls.__name__, "assign": hist})
+                    return n_cases
+                ref = fresh_noise(cls, sig, times0)
+                ref._t0s, ref._factors = list(sig._t0s), list(sig._factors)
+                want = np.array(ref.values, dtype=float)
+                tol = 1e-10 * max(1.0, float(np.max(np.abs(want))))
+                bad = None
+                if got.shape != want.shape or np.max(np.abs(got - want)) > tol:
+                    bad = "differ from a freshly constructed %s with the same band, rms and basis (max deviation %.3g)" % (
+                        cls.__name__, float(np.max(np.abs(got - want))) if got.shape == want.shape else float("nan"))
+                elif full:
+                    exp = cosine_sum(np.asarray(sig.times) - sig._t0s[0], sig.freqs, sig.amps, sig.phases, sig.rms) * sig._factors[0]
+                    if np.max(np.abs(got - exp)) > 1e-9 * max(1.0, float(np.max(np.abs(exp)))):
+                        bad = "differ from the cosine sum over the published basis (max deviation %.3g)" % float(np.max(np.abs(got - exp)))
+                if bad:
+                    ctx.fail("noise:%s:%s" % (cls.__name__, kind),
+                             "%s: values read after assignments %s %s" % (cls.__name__, hist, bad),
                              {"kind": "noise", "class": cls.__name__, "assign": hist})
                     return n_cases
     return n_cases
+
+
+def fresh_path(p):
+    """a newly constructed path object of the same class with the same defining attributes"""
+    from types import SimpleNamespace
+    d = p.__dict__
+    parent = SimpleNamespace(from_point=d.get("from_point"), to_point=d.get("to_point"), ice=d.get("ice"), dz=d.get("dz"))
+    name = type(p).__name__
+    try:
+        if name in ("BasicRayTracePath", "SpecializedRayTracePath"):
+            return type(p)(parent, d["theta0"], d["direct"])
+        if name == "UniformRayTracePath":
+            return type(p)(parent, d["theta0"], d["_reflections"])
+    except Exception:
+        pass
+    q = copy.copy(p)
+    q.__dict__ = {k: v for k, v in d.items() if not k.startswith("_lazy_")}
+    return q
+
+
+def plain(v):
+    """nested arrays / tuples -> nested tuples of Python scalars"""
+    if isinstance(v, np.ndarray):
+        return tuple(plain(x) for x in v.tolist()) if v.ndim else v.item()
+    if isinstance(v, (list, tuple)):
+        return tuple(plain(x) for x in v)
+    if isinstance(v, np.generic):
+        return v.item()
+    return v
 
 
 def tracer_cases(ctx, rng):
@@ -550,16 +641,14 @@ def tracer_cases(ctx, rng):
                 v = [(type(p).__name__, float(p.theta0), float(p.tof), float(p.path_length),
                       tuple(np.round(np.asarray(p.emitted_direction, dtype=float), 15)),
                       tuple(np.round(np.asarray(p.received_direction, dtype=float), 15))) for p in v]
-            elif isinstance(v, np.ndarray):
-                v = tuple(v.tolist())
-            elif isinstance(v, (list, tuple)):
-                v = tuple(v)
+            else:
+                v = plain(v)
             out[nm] = v
         return out
 
     def same(a, b):
         """exact equality; NaN equals NaN (an unphysical endpoint gives NaN directions in both objects)"""
-        if isinstance(a, (float, np.floating)) and isinstance(b, (float, np.floating)):
+        if isinstance(a, (float, np.floating, complex)) and isinstance(b, (float, np.floating, complex)):
             return a == b or (a != a and b != b)
         if isinstance(a, (tuple, list)) and isinstance(b, (tuple, list)):
             return len(a) == len(b) and all(same(x, y) for x, y in zip(a, b))
@@ -614,28 +703,37 @@ def tracer_cases(ctx, rng):
                                  cls.__name__, hist, diff, got[diff[0]], want[diff[0]]),
                              {"kind": "tracer", "class": cls.__name__, "assign": hist})
                     return n_cases
-            # paths: assign on the path objects of the last tracer
+            # paths of the last tracer: assign any public defining attribute between reads and compare with a
+            # freshly CONSTRUCTED path (same class, same endpoints / ice / step / launch angle)
             try:
                 sols = rt.solutions
             except Exception:
                 sols = []
             for p in sols[:2]:
-                pn = ["n0", "rho", "phi", "tof", "path_length", "emitted_direction", "received_direction"]
-                quantities(p, pn)
-                newp = pts()
-                p.to_point = newp
-                got = quantities(p, pn)
-                q = copy.copy(p)
-                q.__dict__ = {k: v for k, v in p.__dict__.items() if not k.startswith("_lazy_")}
-                want = quantities(q, pn)
-                n_cases += 1
-                ctx.case(key=("path", type(p).__name__, n_cases % 7))
-                diff = [nm for nm in pn if not same(got[nm], want[nm])]
-                if diff:
-                    ctx.fail("path:%s:%s" % (type(p).__name__, ",".join(diff)[:60]),
-                             "%s: after assigning to_point, %s differ(s) from a cache-free object with the same attributes" % (type(p).__name__, diff),
-                             {"kind": "path", "class": type(p).__name__})
-                    return n_cases
+                pn = ["n0", "rho", "phi", "tof", "path_length", "emitted_direction", "received_direction", "coordinates"]
+                for stepn in range(rng.randint(1, 3)):
+                    quantities(p, pn)
+                    cand = [a for a in ("to_point", "from_point", "dz", "theta0", "ice") if a in p.__dict__]
+                    a = rng.choice(cand + (["dz"] if "dz" in cand else []))
+                    if a in ("to_point", "from_point"):
+                        setattr(p, a, np.asarray(getattr(p, a), dtype=float) + np.array([rng.randint(-20, 20), rng.randint(-20, 20), -rng.randint(0, 30)], dtype=float))
+                    elif a == "dz":
+                        p.dz = rng.choice([d for d in (0.25, 0.5, 1, 2) if d != p.dz])
+                    elif a == "theta0":
+                        p.theta0 = p.theta0 * (1 + rng.choice([-1, 1]) / 64)
+                    else:
+                        p.ice = ices[1] if p.ice is ices[0] else ices[0]
+                    got = quantities(p, pn)
+                    want = quantities(fresh_path(p), pn)
+                    n_cases += 1
+                    ctx.case(key=("path", type(p).__name__, a, n_cases % 5))
+                    diff = [nm for nm in pn if not same(got[nm], want[nm])]
+                    if diff:
+                        ctx.fail("path:%s:%s:%s" % (type(p).__name__, a, ",".join(diff)[:60]),
+                                 "%s: after assigning %s, %s differ(s) from a freshly constructed path with the same attributes (%s vs %s)" % (
+                                     type(p).__name__, a, diff, str(got[diff[0]])[:120], str(want[diff[0]])[:120]),
+                                 {"kind": "path", "class": type(p).__name__, "assign": a})
+                        return n_cases
     return n_cases
 
 
@@ -653,8 +751,12 @@ def run(ctx):
                 "that object; after EVERY op EVERY live object's values vs a fresh signal with its current attributes "
                 "(exact), vs a fresh signal holding its shadow definition and vs the independent eager evaluation of the "
                 "shadow definition (1e-9 relative); noise subclasses: "
-                "parameter assignment between reads; ray tracers / paths: endpoint / ice / dz assignment between reads vs "
-                "fresh tracer; non-trivial = distinct op sequences")
+                "assignment of rms / amps / phases / freqs, of a basis with a DIFFERENT number of frequencies, of a new band "
+                "(FFT variant) with matching arrays, shift, scaling between reads vs a freshly constructed noise object and "
+                "(FullThermalNoise) the explicit cosine sum over the published basis; ray tracers: endpoint / ice / dz "
+                "assignment between reads vs fresh tracer; their paths: to_point / from_point / dz / theta0 / ice assignment "
+                "between reads of tof, path_length, directions, coordinates vs a freshly constructed path; non-trivial = "
+                "distinct op sequences")
     ctx.trusted += ["Coq 8.16.1 kernel, vm_compute (finite table check, stamp model runs)",
                     "tools/lazy_table.py: AST extraction of static attributes, property reads (transitive), method effect "
                     "paths (loops unrolled 0/1/2 times: entry flags of later iterations coincide with the second), alias "
@@ -666,7 +768,10 @@ def run(ctx):
         "constructor-set attributes; class-level attributes (solution_class, max_reflections ...) are not assigned on instances",
         "in-place mutation of NumPy arrays / objects held in attributes from OUTSIDE the class (rt.from_point[2] = z, "
         "mutating an ice model object) is not a listed public operation",
-        "private (underscore) attributes that are not static are written only by the class's own methods",
+        "private (underscore) attributes that are not static are written only by the class's own methods; those that "
+        "are set only in __init__ (listed in coverage.private_nonstatic_reads) are constructor-time state: the proof "
+        "treats them as part of the object's attributes, the comparison with freshly CONSTRUCTED objects (noise, paths) "
+        "is what detects one that should have followed a re-assigned public attribute",
         "copies of noise / Askaryan signals keep the original object's closure as their function (copy() returns a "
         "FunctionSignal whose function still reads the original's parameters): not covered by the per-object model",
         "the filter is an abstract length-preserving function in values_eq_eager (its linear-algebra content is C05)"]
@@ -680,6 +785,9 @@ def run(ctx):
     except Exception as e:
         ctx.oblige("gen:lazy_table", False, str(e)[-1200:])
     pin_changed = bool(data) and data["core_hash"] != CORE_PIN
+    if data:
+        ctx.extra["private_nonstatic_reads"] = {c: v["private_nonstatic_reads"] for c, v in data["classes"].items()
+                                                if v.get("private_nonstatic_reads")}
     ctx.extra["core_pin"] = {"expected": CORE_PIN, "found": data["core_hash"] if data else None, "changed": pin_changed}
     # ---- prove
     ok = ctx.coq_build("C06")
